@@ -250,8 +250,9 @@ def gen_case(rng, tier, T_modes=("zero", "pos", "mixed", "named", "empty")):
 
 
 def remap_choice(rng):
-    from props import c04
-    return c04.gen_remap(rng) if rng.random() < 0.6 else None
+    if rng.random() < 0.5:
+        return None
+    return {"how": rng.choice(["map", "rmap"]), "seed": rng.randrange(10 ** 6)}
 
 
 def build_model(case):
